@@ -506,7 +506,7 @@ func TestVerifPrimitives(t *testing.T) {
 	}
 	for i, sc := range mine {
 		sc := sc
-		vrt.Explore(vrt.Options{Name: "syncx/" + sc.name, Bound: bound, Prune: !sc.noPrune, MustCollide: sc.collide, Budget: vrt.FairBudget(len(mine) - i)}, func(r *vrt.Run) {
+		vrt.Explore(vrt.Options{Name: "syncx/" + sc.name, Bound: bound, AutoAdvance: true, Prune: !sc.noPrune, MustCollide: sc.collide, Budget: vrt.FairBudget(len(mine) - i)}, func(r *vrt.Run) {
 			sc.run(r)
 			r.AtEnd(func() {
 				for _, l := range r.Leaked() {
